@@ -215,6 +215,35 @@ def main(tier):
                 # (class name only) F13 again: with that option on, the end segments of connectors with free endpoints are nudged like interior
                 # ones -- the endpoints of at least two connectors of this scene were moved, and the segments carrying them end up on one line
                 key = 'nudging:option-nudgeOrthogonalSegmentsConnectedToShapes:overlap-between-connectors-whose-endpoints-were-moved'
+            if t == 'overlap-with-end-segment-in-wide-channel':
+                # (class name only) an interior segment lies on another connector's first/last segment although the raw route of its connector
+                # had no segment on that line there: nudging put it there
+                def segs(rt):
+                    pts = [p for i, p in enumerate(rt) if i == 0 or p != rt[i - 1]]
+                    keep = [pts[0]] + [b for a, b, c in zip(pts, pts[1:], pts[2:]) if not ((a[0] == b[0] == c[0]) or (a[1] == b[1] == c[1]))] + [pts[-1]] if len(pts) >= 2 else pts
+                    out = []
+                    for i, (a, b) in enumerate(zip(keep, keep[1:])):
+                        h = a[1] == b[1]
+                        out.append({'h': h, 'pos': a[1] if h else a[0], 'lo': min(a[0], b[0]) if h else min(a[1], b[1]), 'hi': max(a[0], b[0]) if h else max(a[1], b[1]),
+                                    'end': i == 0 or i == len(keep) - 2})
+                    return out
+                tol = 4
+                def created():
+                    D = [segs(c['disp']) for c in x['conns']]
+                    R = [segs(c['raw']) for c in x['conns']]
+                    for ci, ds in enumerate(D):
+                        for sg in ds:
+                            if sg['end']:
+                                continue
+                            for cj, es in enumerate(D):
+                                for tg in es:
+                                    if cj != ci and tg['end'] and tg['h'] == sg['h'] and abs(tg['pos'] - sg['pos']) <= tol and min(sg['hi'], tg['hi']) - max(sg['lo'], tg['lo']) > 2 * tol:
+                                        lo, hi = max(sg['lo'], tg['lo']), min(sg['hi'], tg['hi'])
+                                        if not any(rg['h'] == sg['h'] and abs(rg['pos'] - sg['pos']) <= tol and min(rg['hi'], hi) - max(rg['lo'], lo) > 2 * tol for rg in R[ci]):
+                                            return True
+                    return False
+                if created():
+                    key = 'nudge:overlap-with-end-segment-in-wide-channel:the-raw-route-had-no-segment-on-that-line'
             if t == 'exception':
                 m = re.search(r'expression: (.*)', x['what'])
                 key = 'assertion:' + re.sub(r'[^A-Za-z0-9_>!=<-]+', '', m.group(1))[:60] if m else (RC.crash_key(x['what']) if x['what'].startswith('process died') else 'exception')
